@@ -1,5 +1,1238 @@
 package main
 
-// genAsm translates dec_arith_amd64.s into Lean (Gen/Asm.lean). Placeholder until the
-// assembly translator lands: returns "" (no file written).
-func genAsm(repo string) (string, error) { return "", nil }
+// genAsm translates dec_arith_amd64.s into Lean (Gen/Asm.lean).
+//
+// Scheme (see ASM_NOTES.md): the file is parsed line by line (Plan-9 amd64 syntax, the subset
+// listed in `semantics` below), every TEXT routine is split into basic blocks, and every basic
+// block becomes ONE Lean function `blk_<routine>_<label> : St → St × Next Lbl` written as an SSA
+// let-chain: one `let` per instruction result (plus one per live flag), registers are Nat < 2^64
+// with explicit `% W`, CF is a Nat (0/1), ZF/SF/OF are Bool, memory is threaded through
+// `Mem.rd`/`Mem.wr` in program order with the symbolic byte address of every access.
+// The x86 meaning of each mnemonic is the hand-written, trusted part of this file.
+//
+// Anything outside the subset is an error naming routine and line; nothing is skipped silently.
+
+import (
+	"fmt"
+	"math/big"
+	"os"
+	"path/filepath"
+	"sort"
+	"strconv"
+	"strings"
+)
+
+type opKind int
+
+const (
+	opImm opKind = iota
+	opReg
+	opFrame // name+off(FP)
+	opMem   // disp(base)(index*scale)
+	opSym   // name(SB)
+	opLabel
+)
+
+type operand struct {
+	kind  opKind
+	imm   *big.Int // opImm, already reduced mod 2^64
+	reg   string   // opReg
+	off   int64    // opFrame offset / opMem displacement
+	base  string   // opMem ("" = none)
+	index string   // opMem ("" = none)
+	scale int64
+	name  string // opFrame / opSym / opLabel
+	text  string
+}
+
+type instr struct {
+	line int
+	mn   string
+	ops  []operand
+	text string
+}
+
+type asmBlock struct {
+	name   string // label part: entry, U1, U1_1 ...
+	instrs []instr
+	// terminator
+	term    string // "cond", "jmp", "ret", "fall"
+	cc      string // condition mnemonic for "cond"
+	target  string // full Lbl name of jump target
+	fall    string // full Lbl name of fallthrough successor
+	termIns *instr
+}
+
+type routine struct {
+	name   string
+	line   int
+	blocks []*asmBlock
+}
+
+var regNames = map[string]string{
+	"AX": "ax", "BX": "bx", "CX": "cx", "DX": "dx", "SI": "si", "DI": "di", "BP": "bp",
+	"R8": "r8", "R9": "r9", "R10": "r10", "R11": "r11", "R12": "r12", "R13": "r13", "R14": "r14", "R15": "r15",
+}
+
+var regOrder = []string{"ax", "bx", "cx", "dx", "si", "di", "bp", "r8", "r9", "r10", "r11", "r12", "r13", "r14", "r15"}
+
+var flagOrder = []string{"cf", "zf", "sf", "of"}
+
+// condition codes: Lean Bool expression over the flag expressions, and the flags read
+var condCodes = map[string]struct {
+	expr  func(f map[string]string) string
+	reads []string
+}{
+	"JL":  {func(f map[string]string) string { return fmt.Sprintf("(%s != %s)", f["sf"], f["of"]) }, []string{"sf", "of"}},
+	"JLT": {func(f map[string]string) string { return fmt.Sprintf("(%s != %s)", f["sf"], f["of"]) }, []string{"sf", "of"}},
+	"JGE": {func(f map[string]string) string { return fmt.Sprintf("(%s == %s)", f["sf"], f["of"]) }, []string{"sf", "of"}},
+	"JLE": {func(f map[string]string) string { return fmt.Sprintf("(%s || (%s != %s))", f["zf"], f["sf"], f["of"]) }, []string{"zf", "sf", "of"}},
+	"JG":  {func(f map[string]string) string { return fmt.Sprintf("(!%s && (%s == %s))", f["zf"], f["sf"], f["of"]) }, []string{"zf", "sf", "of"}},
+	"JGT": {func(f map[string]string) string { return fmt.Sprintf("(!%s && (%s == %s))", f["zf"], f["sf"], f["of"]) }, []string{"zf", "sf", "of"}},
+	"JEQ": {func(f map[string]string) string { return f["zf"] }, []string{"zf"}},
+	"JNE": {func(f map[string]string) string { return fmt.Sprintf("(!%s)", f["zf"]) }, []string{"zf"}},
+	"JCC": {func(f map[string]string) string { return fmt.Sprintf("decide (%s = 0)", f["cf"]) }, []string{"cf"}},
+	"JCS": {func(f map[string]string) string { return fmt.Sprintf("decide (%s = 1)", f["cf"]) }, []string{"cf"}},
+	"JHI": {func(f map[string]string) string { return fmt.Sprintf("(decide (%s = 0) && !%s)", f["cf"], f["zf"]) }, []string{"cf", "zf"}},
+	"JLS": {func(f map[string]string) string { return fmt.Sprintf("(decide (%s = 1) || %s)", f["cf"], f["zf"]) }, []string{"cf", "zf"}},
+	"JMI": {func(f map[string]string) string { return f["sf"] }, []string{"sf"}},
+	"JPL": {func(f map[string]string) string { return fmt.Sprintf("(!%s)", f["sf"]) }, []string{"sf"}},
+}
+
+// flag effect of each mnemonic: which flags it reads, which it defines, which it leaves undefined.
+type flagFx struct {
+	reads, defs, undef []string
+}
+
+var all4 = []string{"cf", "zf", "sf", "of"}
+
+var semantics = map[string]flagFx{
+	"MOVQ":    {},
+	"MOVWLZX": {},
+	"LEAQ":    {},
+	"NOTQ":    {},
+	"ADDQ":    {defs: all4},
+	"ADCQ":    {reads: []string{"cf"}, defs: all4},
+	"SUBQ":    {defs: all4},
+	"SBBQ":    {reads: []string{"cf"}, defs: all4},
+	"CMPQ":    {defs: all4},
+	"NEGQ":    {defs: all4},
+	"ANDQ":    {defs: all4},
+	"ORQ":     {defs: all4},
+	"XORQ":    {defs: all4},
+	"TESTQ":   {defs: all4},
+	"INCQ":    {defs: []string{"zf", "sf", "of"}},
+	"DECQ":    {defs: []string{"zf", "sf", "of"}},
+	"MULQ":    {defs: []string{"cf", "of"}, undef: []string{"zf", "sf"}},
+	"DIVQ":    {undef: all4},
+	// shifts and rotates: with a zero count the flags are unchanged, with a non-zero count some
+	// are undefined; the translator treats all four as undefined afterwards (reading one is an error).
+	"SHRQ": {undef: all4},
+	"SHLQ": {undef: all4},
+	"SARQ": {undef: all4},
+	"RORW": {undef: all4},
+}
+
+type asmErr struct {
+	routine string
+	line    int
+	msg     string
+}
+
+func (e *asmErr) Error() string {
+	return fmt.Sprintf("untranslatable: routine %s line %d: %s", e.routine, e.line, e.msg)
+}
+
+var two64 = new(big.Int).Lsh(big.NewInt(1), 64)
+
+func parseImm(s string, defines map[string]string) (*big.Int, bool) {
+	s = strings.TrimSpace(s)
+	neg := false
+	if strings.HasPrefix(s, "-") {
+		neg = true
+		s = s[1:]
+	}
+	if v, ok := defines[s]; ok {
+		s = v
+	}
+	z := new(big.Int)
+	var ok bool
+	if strings.HasPrefix(s, "0x") || strings.HasPrefix(s, "0X") {
+		_, ok = z.SetString(s[2:], 16)
+	} else {
+		_, ok = z.SetString(s, 10)
+	}
+	if !ok {
+		return nil, false
+	}
+	if neg {
+		z.Neg(z)
+	}
+	z.Mod(z, two64)
+	return z, true
+}
+
+func parseOperand(s string, defines map[string]string, isJump bool) (operand, error) {
+	s = strings.TrimSpace(s)
+	o := operand{text: s}
+	if s == "" {
+		return o, fmt.Errorf("empty operand")
+	}
+	if strings.HasPrefix(s, "$") {
+		v, ok := parseImm(s[1:], defines)
+		if !ok {
+			return o, fmt.Errorf("bad immediate %q", s)
+		}
+		o.kind, o.imm = opImm, v
+		return o, nil
+	}
+	if r, ok := regNames[s]; ok {
+		o.kind, o.reg = opReg, r
+		return o, nil
+	}
+	if strings.HasSuffix(s, "(SB)") {
+		o.kind = opSym
+		o.name = strings.TrimPrefix(strings.TrimSuffix(s, "(SB)"), "·")
+		if strings.ContainsAny(o.name, "+-<>") {
+			return o, fmt.Errorf("unsupported symbol reference %q", s)
+		}
+		return o, nil
+	}
+	if strings.HasSuffix(s, "(FP)") {
+		body := strings.TrimSuffix(s, "(FP)")
+		i := strings.LastIndexAny(body, "+-")
+		if i <= 0 {
+			return o, fmt.Errorf("bad FP operand %q", s)
+		}
+		off, err := strconv.ParseInt(body[i:], 10, 64)
+		if err != nil || off < 0 || off%8 != 0 {
+			return o, fmt.Errorf("bad FP offset in %q", s)
+		}
+		o.kind, o.name, o.off = opFrame, body[:i], off
+		return o, nil
+	}
+	if i := strings.Index(s, "("); i >= 0 {
+		// disp(base)(index*scale) | disp(base) | (base)(index*scale) | (base)
+		disp := strings.TrimSpace(s[:i])
+		if disp != "" {
+			v, err := strconv.ParseInt(disp, 0, 64)
+			if err != nil {
+				if d, ok := defines[disp]; ok {
+					v, err = strconv.ParseInt(d, 0, 64)
+				}
+				if err != nil {
+					return o, fmt.Errorf("bad displacement in %q", s)
+				}
+			}
+			o.off = v
+		}
+		rest := s[i:]
+		var parts []string
+		for rest != "" {
+			if rest[0] != '(' {
+				return o, fmt.Errorf("bad memory operand %q", s)
+			}
+			j := strings.Index(rest, ")")
+			if j < 0 {
+				return o, fmt.Errorf("bad memory operand %q", s)
+			}
+			parts = append(parts, rest[1:j])
+			rest = rest[j+1:]
+		}
+		if len(parts) < 1 || len(parts) > 2 {
+			return o, fmt.Errorf("bad memory operand %q", s)
+		}
+		b, ok := regNames[strings.TrimSpace(parts[0])]
+		if !ok {
+			return o, fmt.Errorf("unsupported base register in %q", s)
+		}
+		o.kind, o.base = opMem, b
+		if len(parts) == 2 {
+			is := strings.Split(parts[1], "*")
+			if len(is) != 2 {
+				return o, fmt.Errorf("bad index in %q", s)
+			}
+			ix, ok := regNames[strings.TrimSpace(is[0])]
+			if !ok {
+				return o, fmt.Errorf("unsupported index register in %q", s)
+			}
+			sc, err := strconv.ParseInt(strings.TrimSpace(is[1]), 10, 64)
+			if err != nil || (sc != 1 && sc != 2 && sc != 4 && sc != 8) {
+				return o, fmt.Errorf("bad scale in %q", s)
+			}
+			o.index, o.scale = ix, sc
+		}
+		return o, nil
+	}
+	if isJump {
+		o.kind, o.name = opLabel, s
+		return o, nil
+	}
+	return o, fmt.Errorf("unsupported operand %q", s)
+}
+
+func isIdent(s string) bool {
+	if s == "" {
+		return false
+	}
+	for i, c := range s {
+		if !(c == '_' || (c >= 'A' && c <= 'Z') || (c >= 'a' && c <= 'z') || (i > 0 && c >= '0' && c <= '9')) {
+			return false
+		}
+	}
+	return true
+}
+
+// parseAsm reads the file into routines of basic blocks.
+func parseAsm(src string) ([]*routine, map[string]bool, error) {
+	defines := map[string]string{}
+	used := map[string]bool{}
+	type item struct {
+		label string
+		ins   *instr
+	}
+	var routines []*routine
+	var cur *routine
+	var items []item
+	flush := func() error {
+		if cur == nil {
+			return nil
+		}
+		// split items into blocks
+		labelOf := "entry"
+		sub := 0
+		var blk *asmBlock
+		labels := map[string]bool{}
+		newBlock := func(name string) {
+			blk = &asmBlock{name: name}
+			cur.blocks = append(cur.blocks, blk)
+		}
+		newBlock("entry")
+		ended := false // previous block ended with a terminator; next instruction starts a new block
+		for _, it := range items {
+			if it.label != "" {
+				if labels[it.label] {
+					return &asmErr{cur.name, 0, "duplicate label " + it.label}
+				}
+				labels[it.label] = true
+				if it.label == "entry" {
+					return &asmErr{cur.name, 0, "label named entry"}
+				}
+				if !ended && blk.term == "" {
+					blk.term = "fall"
+				}
+				labelOf, sub = it.label, 0
+				newBlock(it.label)
+				ended = false
+				continue
+			}
+			in := it.ins
+			if ended {
+				if blk.term == "jmp" || blk.term == "ret" {
+					return &asmErr{cur.name, in.line, "unreachable code after " + blk.term}
+				}
+				sub++
+				newBlock(fmt.Sprintf("%s_%d", labelOf, sub))
+				ended = false
+			}
+			switch {
+			case in.mn == "RET":
+				if len(in.ops) != 0 {
+					return &asmErr{cur.name, in.line, "RET with operands"}
+				}
+				blk.term, blk.termIns, ended = "ret", in, true
+			case in.mn == "JMP":
+				if len(in.ops) != 1 || (in.ops[0].kind != opLabel && in.ops[0].kind != opSym) {
+					return &asmErr{cur.name, in.line, "unsupported JMP operand"}
+				}
+				blk.term, blk.termIns, ended = "jmp", in, true
+			case strings.HasPrefix(in.mn, "J"):
+				if _, ok := condCodes[in.mn]; !ok {
+					return &asmErr{cur.name, in.line, "unsupported mnemonic " + in.mn}
+				}
+				if len(in.ops) != 1 || in.ops[0].kind != opLabel {
+					return &asmErr{cur.name, in.line, "conditional jump needs a label"}
+				}
+				blk.term, blk.cc, blk.termIns, ended = "cond", in.mn, in, true
+			default:
+				if _, ok := semantics[in.mn]; !ok {
+					return &asmErr{cur.name, in.line, "unsupported mnemonic " + in.mn}
+				}
+				blk.instrs = append(blk.instrs, *in)
+			}
+		}
+		last := cur.blocks[len(cur.blocks)-1]
+		if last.term == "" || last.term == "fall" || last.term == "cond" {
+			return &asmErr{cur.name, cur.line, "control falls off the end of the routine"}
+		}
+		// resolve successors
+		for i, b := range cur.blocks {
+			next := ""
+			if i+1 < len(cur.blocks) {
+				next = cur.name + "_" + cur.blocks[i+1].name
+			}
+			switch b.term {
+			case "fall":
+				b.fall = next
+			case "cond":
+				t := b.termIns.ops[0].name
+				if !labels[t] {
+					return &asmErr{cur.name, b.termIns.line, "jump to unknown label " + t}
+				}
+				b.target, b.fall = cur.name+"_"+t, next
+			case "jmp":
+				o := b.termIns.ops[0]
+				if o.kind == opLabel {
+					if !labels[o.name] {
+						return &asmErr{cur.name, b.termIns.line, "jump to unknown label " + o.name}
+					}
+					b.target = cur.name + "_" + o.name
+				} else {
+					b.target = "@" + o.name // tail call, resolved later
+				}
+			}
+		}
+		routines = append(routines, cur)
+		cur, items = nil, nil
+		return nil
+	}
+
+	for ln, raw := range strings.Split(src, "\n") {
+		line := raw
+		if i := strings.Index(line, "//"); i >= 0 {
+			line = line[:i]
+		}
+		line = strings.TrimSpace(line)
+		if line == "" {
+			continue
+		}
+		lineNo := ln + 1
+		if strings.HasPrefix(line, "#") {
+			f := strings.Fields(line)
+			switch f[0] {
+			case "#include":
+			case "#define":
+				if len(f) != 3 {
+					return nil, nil, &asmErr{"-", lineNo, "unsupported #define"}
+				}
+				defines[f[1]] = f[2]
+			default:
+				return nil, nil, &asmErr{"-", lineNo, "unsupported preprocessor line " + f[0]}
+			}
+			continue
+		}
+		if strings.HasPrefix(line, "TEXT") {
+			if err := flush(); err != nil {
+				return nil, nil, err
+			}
+			f := strings.Split(strings.TrimSpace(line[4:]), ",")
+			sym := strings.TrimSpace(f[0])
+			if !strings.HasSuffix(sym, "(SB)") {
+				return nil, nil, &asmErr{"-", lineNo, "bad TEXT line"}
+			}
+			name := strings.TrimPrefix(strings.TrimSuffix(sym, "(SB)"), "·")
+			if !isIdent(name) {
+				return nil, nil, &asmErr{name, lineNo, "bad routine name"}
+			}
+			// frame size must be $0 (no locals): SP-relative addressing is not modelled
+			fs := strings.TrimSpace(f[len(f)-1])
+			if !(fs == "$0" || strings.HasPrefix(fs, "$0-")) {
+				return nil, nil, &asmErr{name, lineNo, "non-zero frame size " + fs}
+			}
+			cur = &routine{name: name, line: lineNo}
+			used["TEXT"] = true
+			continue
+		}
+		if cur == nil {
+			return nil, nil, &asmErr{"-", lineNo, "instruction outside TEXT: " + line}
+		}
+		// label?
+		if i := strings.Index(line, ":"); i > 0 && isIdent(strings.TrimSpace(line[:i])) {
+			items = append(items, item{label: strings.TrimSpace(line[:i])})
+			line = strings.TrimSpace(line[i+1:])
+			if line == "" {
+				continue
+			}
+		}
+		mn := line
+		rest := ""
+		if i := strings.IndexAny(line, " \t"); i >= 0 {
+			mn, rest = line[:i], strings.TrimSpace(line[i:])
+		}
+		in := &instr{line: lineNo, mn: mn, text: strings.Join(strings.Fields(line), " ")}
+		used[mn] = true
+		if rest != "" {
+			for _, os := range strings.Split(rest, ",") {
+				o, err := parseOperand(os, defines, strings.HasPrefix(mn, "J"))
+				if err != nil {
+					return nil, nil, &asmErr{cur.name, lineNo, err.Error()}
+				}
+				in.ops = append(in.ops, o)
+			}
+		}
+		items = append(items, item{ins: in})
+	}
+	if err := flush(); err != nil {
+		return nil, nil, err
+	}
+	// resolve tail calls
+	byName := map[string]*routine{}
+	for _, r := range routines {
+		if byName[r.name] != nil {
+			return nil, nil, &asmErr{r.name, r.line, "duplicate routine"}
+		}
+		byName[r.name] = r
+	}
+	for _, r := range routines {
+		for _, b := range r.blocks {
+			if strings.HasPrefix(b.target, "@") {
+				t := byName[b.target[1:]]
+				if t == nil {
+					return nil, nil, &asmErr{r.name, b.termIns.line, "tail call to unknown routine " + b.target[1:]}
+				}
+				b.target = t.name + "_entry"
+			}
+		}
+	}
+	return routines, used, nil
+}
+
+// ---------------------------------------------------------------------------------------------
+// flag analyses
+
+func (b *asmBlock) succs() []string {
+	switch b.term {
+	case "fall":
+		return []string{b.fall}
+	case "cond":
+		return []string{b.target, b.fall}
+	case "jmp":
+		return []string{b.target}
+	}
+	return nil
+}
+
+// checkFlags: forward may-be-undefined analysis over the whole file. A flag is undefined at a
+// routine entry and after an instruction that leaves it undefined; reading such a flag is an error.
+func checkFlags(routines []*routine) error {
+	type key = string
+	undefIn := map[key]map[string]bool{}
+	blocks := map[key]*asmBlock{}
+	owner := map[key]*routine{}
+	var order []key
+	for _, r := range routines {
+		for _, b := range r.blocks {
+			k := r.name + "_" + b.name
+			blocks[k], owner[k] = b, r
+			order = append(order, k)
+			undefIn[k] = map[string]bool{}
+		}
+		for _, f := range all4 {
+			undefIn[r.name+"_entry"][f] = true
+		}
+	}
+	transfer := func(k key, report bool) (map[string]bool, error) {
+		u := map[string]bool{}
+		for f := range undefIn[k] {
+			u[f] = true
+		}
+		b := blocks[k]
+		for _, in := range b.instrs {
+			fx := semantics[in.mn]
+			for _, f := range fx.reads {
+				if u[f] && report {
+					return nil, &asmErr{owner[k].name, in.line, in.mn + " reads flag " + f + " which may be undefined here"}
+				}
+			}
+			for _, f := range fx.defs {
+				delete(u, f)
+			}
+			for _, f := range fx.undef {
+				u[f] = true
+			}
+		}
+		if b.term == "cond" && report {
+			for _, f := range condCodes[b.cc].reads {
+				if u[f] {
+					return nil, &asmErr{owner[k].name, b.termIns.line, b.cc + " reads flag " + f + " which may be undefined here"}
+				}
+			}
+		}
+		return u, nil
+	}
+	for changed := true; changed; {
+		changed = false
+		for _, k := range order {
+			out, _ := transfer(k, false)
+			for _, s := range blocks[k].succs() {
+				for f := range out {
+					if !undefIn[s][f] {
+						undefIn[s][f] = true
+						changed = true
+					}
+				}
+			}
+		}
+	}
+	for _, k := range order {
+		if _, err := transfer(k, true); err != nil {
+			return err
+		}
+	}
+	return nil
+}
+
+// ---------------------------------------------------------------------------------------------
+// emission
+
+type emitter struct {
+	r       *routine
+	b       *asmBlock
+	sb      *strings.Builder
+	cur     map[string]string // register / flag / mem / frame / trap -> current Lean expression
+	ver     map[string]int
+	changed map[string]bool
+	undef   map[string]bool // flags currently undefined (block-local view)
+	lit     map[string]bool // SSA names bound to a numeric literal (MOVQ $imm)
+}
+
+// isLit: the expression is a numeric literal or an SSA name bound to one.
+func (e *emitter) isLit(x string) bool {
+	if e.lit[x] {
+		return true
+	}
+	if x == "" {
+		return false
+	}
+	for _, c := range x {
+		if c < '0' || c > '9' {
+			return false
+		}
+	}
+	return true
+}
+
+// sum writes l + r with a literal operand first. NOTE on term order: Lean's kernel evaluates
+// `x + BIG` and `x - BIG` on a symbolic `x` by peeling BIG successors when a definitional-equality
+// check happens to look inside (it does, e.g. through structure eta on the state), which does not
+// terminate in practice; `BIG + x` and `W - BIG + x` are stuck immediately. So a literal is never
+// the right operand of `+` or `-` next to a symbolic left operand.
+func (e *emitter) sum(l, r string) string {
+	if e.isLit(r) && !e.isLit(l) {
+		l, r = r, l
+	}
+	return l + " + " + r
+}
+
+// diff writes (d - a) mod 2^64 before the final `% W`.
+func (e *emitter) diff(d, a string) string {
+	if e.isLit(a) {
+		return fmt.Sprintf("W - %s + %s", a, d)
+	}
+	return fmt.Sprintf("W + %s - %s", d, a)
+}
+
+func (e *emitter) fresh(base string) string {
+	e.ver[base]++
+	return fmt.Sprintf("%s_%d", base, e.ver[base])
+}
+
+func (e *emitter) let(name, expr string) {
+	fmt.Fprintf(e.sb, "  let %s := %s\n", name, expr)
+}
+
+func (e *emitter) set(what, expr string) {
+	n := e.fresh(what)
+	e.let(n, expr)
+	if e.isLit(expr) {
+		e.lit[n] = true
+	}
+	e.cur[what] = n
+	e.changed[what] = true
+}
+
+func natLit(v *big.Int) string { return v.String() }
+
+func (e *emitter) addr(o operand, forAccess bool, in *instr) (string, error) {
+	if forAccess {
+		if o.off%8 != 0 || (o.index != "" && o.scale != 8) {
+			return "", &asmErr{e.r.name, in.line, "memory access that is not word aligned by construction: " + o.text}
+		}
+	}
+	// a negative displacement is written first (see sum)
+	var parts []string
+	if o.off < 0 {
+		parts = append(parts, fmt.Sprintf("W - %d", -o.off))
+	}
+	parts = append(parts, e.cur[o.base])
+	if o.index != "" {
+		parts = append(parts, fmt.Sprintf("%d * %s", o.scale, e.cur[o.index]))
+	}
+	if o.off > 0 {
+		parts = append(parts, fmt.Sprintf("%d", o.off))
+	}
+	return "((" + strings.Join(parts, " + ") + ") % W)", nil
+}
+
+// read returns a Lean expression (atom) for the value of a source operand; memory operands are
+// loaded into a fresh `m_k` first unless direct is set (then the load expression itself is returned).
+func (e *emitter) read(o operand, in *instr, direct bool) (string, error) {
+	switch o.kind {
+	case opImm:
+		return natLit(o.imm), nil
+	case opReg:
+		return e.cur[o.reg], nil
+	case opFrame:
+		x := fmt.Sprintf("%s.rd %d", e.cur["frame"], o.off)
+		if direct {
+			return x, nil
+		}
+		n := e.fresh("m")
+		e.let(n, x)
+		return n, nil
+	case opMem:
+		a, err := e.addr(o, true, in)
+		if err != nil {
+			return "", err
+		}
+		x := fmt.Sprintf("%s.rd %s", e.cur["mem"], a)
+		if direct {
+			return x, nil
+		}
+		n := e.fresh("m")
+		e.let(n, x)
+		return n, nil
+	}
+	return "", &asmErr{e.r.name, in.line, "unsupported source operand " + o.text}
+}
+
+func (e *emitter) write(o operand, expr string, in *instr) error {
+	switch o.kind {
+	case opReg:
+		e.set(o.reg, expr)
+		return nil
+	case opFrame:
+		v := expr
+		e.set("frame", fmt.Sprintf("%s.wr %d (%s)", e.cur["frame"], o.off, v))
+		return nil
+	case opMem:
+		a, err := e.addr(o, true, in)
+		if err != nil {
+			return err
+		}
+		e.set("mem", fmt.Sprintf("%s.wr %s (%s)", e.cur["mem"], a, expr))
+		return nil
+	}
+	return &asmErr{e.r.name, in.line, "unsupported destination operand " + o.text}
+}
+
+// setFlags emits the lets for the live flags. exprs maps flag -> expression ("" = keep).
+func (e *emitter) setFlags(live map[string]bool, exprs map[string]string) {
+	for _, f := range flagOrder {
+		x, ok := exprs[f]
+		if !ok {
+			continue
+		}
+		delete(e.undef, f)
+		if live[f] {
+			e.set(f, x)
+		} else {
+			// dead: never read before being overwritten; no let emitted
+			e.changed[f] = true
+			e.cur[f] = "DEAD_" + f
+		}
+	}
+}
+
+func (e *emitter) markUndef(fs []string) {
+	for _, f := range fs {
+		e.undef[f] = true
+		e.changed[f] = true
+		if f == "cf" {
+			e.cur[f] = "0"
+		} else {
+			e.cur[f] = "false"
+		}
+	}
+}
+
+func zsf(res string) map[string]string {
+	return map[string]string{"zf": fmt.Sprintf("decide (%s = 0)", res), "sf": fmt.Sprintf("msb %s", res)}
+}
+
+func (e *emitter) instr(in *instr, live map[string]bool) error {
+	bad := func(msg string) error { return &asmErr{e.r.name, in.line, msg + ": " + in.text} }
+	fmt.Fprintf(e.sb, "  -- %d: %s\n", in.line, in.text)
+	nops := func(n int) error {
+		if len(in.ops) != n {
+			return bad(fmt.Sprintf("expected %d operands", n))
+		}
+		return nil
+	}
+	switch in.mn {
+	case "MOVQ":
+		if err := nops(2); err != nil {
+			return err
+		}
+		src, dst := in.ops[0], in.ops[1]
+		if dst.kind != opReg && src.kind != opReg && src.kind != opImm {
+			return bad("memory to memory move")
+		}
+		v, err := e.read(src, in, true)
+		if err != nil {
+			return err
+		}
+		return e.write(dst, v, in)
+	case "MOVWLZX":
+		if err := nops(2); err != nil {
+			return err
+		}
+		if in.ops[1].kind != opReg {
+			return bad("destination must be a register")
+		}
+		v, err := e.read(in.ops[0], in, true)
+		if err != nil {
+			return err
+		}
+		return e.write(in.ops[1], fmt.Sprintf("(%s) %% 65536", v), in)
+	case "LEAQ":
+		if err := nops(2); err != nil {
+			return err
+		}
+		src, dst := in.ops[0], in.ops[1]
+		if dst.kind != opReg {
+			return bad("destination must be a register")
+		}
+		switch src.kind {
+		case opSym:
+			return e.write(dst, fmt.Sprintf("s.sym %q %% W", src.name), in)
+		case opMem:
+			a, err := e.addr(src, false, in)
+			if err != nil {
+				return err
+			}
+			return e.write(dst, a, in)
+		}
+		return bad("unsupported LEAQ source")
+	case "NOTQ":
+		if err := nops(1); err != nil {
+			return err
+		}
+		d, err := e.read(in.ops[0], in, false)
+		if err != nil {
+			return err
+		}
+		return e.write(in.ops[0], fmt.Sprintf("W - 1 - %s", d), in)
+	case "NEGQ":
+		if err := nops(1); err != nil {
+			return err
+		}
+		d, err := e.read(in.ops[0], in, false)
+		if err != nil {
+			return err
+		}
+		if err := e.write(in.ops[0], fmt.Sprintf("(W - %s) %% W", d), in); err != nil {
+			return err
+		}
+		res := e.lastWritten(in.ops[0])
+		fl := zsf(res)
+		fl["cf"] = fmt.Sprintf("if %s = 0 then 0 else 1", d)
+		fl["of"] = fmt.Sprintf("decide (%s = 9223372036854775808)", d)
+		e.setFlags(live, fl)
+		return nil
+	case "INCQ", "DECQ":
+		if err := nops(1); err != nil {
+			return err
+		}
+		d, err := e.read(in.ops[0], in, false)
+		if err != nil {
+			return err
+		}
+		var x, of string
+		if in.mn == "INCQ" {
+			x = fmt.Sprintf("(%s + 1) %% W", d)
+		} else {
+			x = fmt.Sprintf("(W + %s - 1) %% W", d)
+		}
+		if err := e.write(in.ops[0], x, in); err != nil {
+			return err
+		}
+		res := e.lastWritten(in.ops[0])
+		if in.mn == "INCQ" {
+			of = fmt.Sprintf("addOF %s 1 %s", d, res)
+		} else {
+			of = fmt.Sprintf("subOF %s 1 %s", d, res)
+		}
+		fl := zsf(res)
+		fl["of"] = of
+		e.setFlags(live, fl)
+		return nil
+	case "ADDQ", "ADCQ", "SUBQ", "SBBQ":
+		if err := nops(2); err != nil {
+			return err
+		}
+		a, err := e.read(in.ops[0], in, false)
+		if err != nil {
+			return err
+		}
+		d, err := e.read(in.ops[1], in, false)
+		if err != nil {
+			return err
+		}
+		var x, cf, of string
+		c := e.cur["cf"]
+		switch in.mn {
+		case "ADDQ":
+			x = fmt.Sprintf("(%s) %% W", e.sum(d, a))
+			cf = fmt.Sprintf("(%s) / W", e.sum(d, a))
+		case "ADCQ":
+			x = fmt.Sprintf("(%s + %s) %% W", e.sum(d, a), c)
+			cf = fmt.Sprintf("(%s + %s) / W", e.sum(d, a), c)
+		case "SUBQ":
+			x = fmt.Sprintf("(%s) %% W", e.diff(d, a))
+			cf = fmt.Sprintf("if %s < %s then 1 else 0", d, a)
+		case "SBBQ":
+			x = fmt.Sprintf("(%s - %s) %% W", e.diff(d, a), c)
+			cf = fmt.Sprintf("if %s < %s then 1 else 0", d, e.sum(a, c))
+		}
+		if err := e.write(in.ops[1], x, in); err != nil {
+			return err
+		}
+		res := e.lastWritten(in.ops[1])
+		if in.mn == "ADDQ" || in.mn == "ADCQ" {
+			of = fmt.Sprintf("addOF %s %s %s", d, a, res)
+		} else {
+			of = fmt.Sprintf("subOF %s %s %s", d, a, res)
+		}
+		fl := zsf(res)
+		fl["cf"], fl["of"] = cf, of
+		e.setFlags(live, fl)
+		return nil
+	case "CMPQ":
+		// Plan-9 operand order: CMPQ a, b sets the flags of a - b
+		if err := nops(2); err != nil {
+			return err
+		}
+		a, err := e.read(in.ops[0], in, false)
+		if err != nil {
+			return err
+		}
+		b, err := e.read(in.ops[1], in, false)
+		if err != nil {
+			return err
+		}
+		t := e.fresh("t")
+		e.let(t, fmt.Sprintf("(%s) %% W", e.diff(a, b)))
+		fl := zsf(t)
+		fl["cf"] = fmt.Sprintf("if %s < %s then 1 else 0", a, b)
+		fl["of"] = fmt.Sprintf("subOF %s %s %s", a, b, t)
+		e.setFlags(live, fl)
+		return nil
+	case "ANDQ", "ORQ", "XORQ", "TESTQ":
+		if err := nops(2); err != nil {
+			return err
+		}
+		a, err := e.read(in.ops[0], in, false)
+		if err != nil {
+			return err
+		}
+		d, err := e.read(in.ops[1], in, false)
+		if err != nil {
+			return err
+		}
+		fn := map[string]string{"ANDQ": "Nat.land", "TESTQ": "Nat.land", "ORQ": "Nat.lor", "XORQ": "Nat.xor"}[in.mn]
+		x := fmt.Sprintf("%s %s %s", fn, d, a)
+		var res string
+		if in.mn == "TESTQ" {
+			res = e.fresh("t")
+			e.let(res, x)
+		} else {
+			if err := e.write(in.ops[1], x, in); err != nil {
+				return err
+			}
+			res = e.lastWritten(in.ops[1])
+		}
+		fl := zsf(res)
+		fl["cf"], fl["of"] = "0", "false"
+		e.setFlags(live, fl)
+		return nil
+	case "MULQ":
+		// DX:AX = AX * src
+		if err := nops(1); err != nil {
+			return err
+		}
+		a, err := e.read(in.ops[0], in, false)
+		if err != nil {
+			return err
+		}
+		p := e.fresh("p")
+		l, r := e.cur["ax"], a
+		if e.isLit(r) && !e.isLit(l) {
+			l, r = r, l // literal first, see sum
+		}
+		e.let(p, fmt.Sprintf("%s * %s", l, r))
+		e.set("ax", fmt.Sprintf("%s %% W", p))
+		e.set("dx", fmt.Sprintf("%s / W", p))
+		hi := e.cur["dx"]
+		e.setFlags(live, map[string]string{"cf": fmt.Sprintf("if %s = 0 then 0 else 1", hi), "of": fmt.Sprintf("decide (%s ≠ 0)", hi)})
+		e.markUndef([]string{"zf", "sf"})
+		return nil
+	case "DIVQ":
+		// AX, DX = (DX:AX) / src, (DX:AX) % src; #DE if src = 0 or the quotient does not fit
+		if err := nops(1); err != nil {
+			return err
+		}
+		a, err := e.read(in.ops[0], in, false)
+		if err != nil {
+			return err
+		}
+		n := e.fresh("n")
+		e.let(n, fmt.Sprintf("W * %s + %s", e.cur["dx"], e.cur["ax"]))
+		e.set("trap", fmt.Sprintf("%s || decide (%s = 0 ∨ %s ≥ %s)", e.cur["trap"], a, e.cur["dx"], a))
+		e.set("ax", fmt.Sprintf("(%s / %s) %% W", n, a))
+		e.set("dx", fmt.Sprintf("%s %% %s", n, a))
+		e.markUndef(all4)
+		return nil
+	case "SHRQ", "SHLQ", "SARQ":
+		if err := nops(2); err != nil {
+			return err
+		}
+		cnt, dst := in.ops[0], in.ops[1]
+		d, err := e.read(dst, in, false)
+		if err != nil {
+			return err
+		}
+		var c string
+		var k int64 = -1
+		switch {
+		case cnt.kind == opImm:
+			k = new(big.Int).Mod(cnt.imm, big.NewInt(64)).Int64()
+			if cnt.imm.Cmp(big.NewInt(64)) >= 0 {
+				return bad("shift count out of range")
+			}
+			c = fmt.Sprintf("%d", k)
+		case cnt.kind == opReg && cnt.reg == "cx":
+			c = fmt.Sprintf("(%s %% 64)", e.cur["cx"])
+		default:
+			return bad("shift count must be an immediate or CX")
+		}
+		var x string
+		switch in.mn {
+		case "SHRQ":
+			x = fmt.Sprintf("%s / 2 ^ %s", d, c)
+		case "SHLQ":
+			x = fmt.Sprintf("(2 ^ %s * %s) %% W", c, d)
+		case "SARQ":
+			switch {
+			case k == 63:
+				x = fmt.Sprintf("Decimal.Gen.signMask %s", d)
+			case k >= 0:
+				fill := new(big.Int).Sub(two64, new(big.Int).Lsh(big.NewInt(1), uint(64-k)))
+				x = fmt.Sprintf("%s / 2 ^ %d + (if %s ≥ 9223372036854775808 then %s else 0)", d, k, d, fill)
+			default:
+				return bad("SARQ by CX is not supported")
+			}
+		}
+		if err := e.write(dst, x, in); err != nil {
+			return err
+		}
+		e.markUndef(all4)
+		return nil
+	case "RORW":
+		if err := nops(2); err != nil {
+			return err
+		}
+		cnt, dst := in.ops[0], in.ops[1]
+		if cnt.kind != opImm || dst.kind != opReg {
+			return bad("RORW needs an immediate count and a register")
+		}
+		k := new(big.Int).Mod(cnt.imm, big.NewInt(16)).Int64()
+		if cnt.imm.Cmp(big.NewInt(16)) >= 0 || k == 0 {
+			return bad("rotate count out of range")
+		}
+		d := e.cur[dst.reg]
+		lo := e.fresh("t")
+		e.let(lo, fmt.Sprintf("%s %% 65536", d))
+		x := fmt.Sprintf("65536 * (%s / 65536) + (%s / %d + %d * (%s %% %d))", d, lo, int64(1)<<uint(k), int64(1)<<uint(16-k), lo, int64(1)<<uint(k))
+		if err := e.write(dst, x, in); err != nil {
+			return err
+		}
+		e.markUndef(all4)
+		return nil
+	}
+	return bad("unsupported mnemonic " + in.mn)
+}
+
+func (e *emitter) lastWritten(o operand) string {
+	switch o.kind {
+	case opReg:
+		return e.cur[o.reg]
+	}
+	// memory / frame destination of a read-modify-write: recompute is not needed by this file
+	return "0"
+}
+
+func (e *emitter) block(full string) error {
+	b := e.b
+	// backward liveness of flags inside the block; at the end of the block all four are live
+	// (they are written back into the state).
+	n := len(b.instrs)
+	liveAfter := make([]map[string]bool, n)
+	live := map[string]bool{"cf": true, "zf": true, "sf": true, "of": true}
+	if b.term == "cond" {
+		for _, f := range condCodes[b.cc].reads {
+			live[f] = true
+		}
+	}
+	for i := n - 1; i >= 0; i-- {
+		liveAfter[i] = map[string]bool{}
+		for f := range live {
+			liveAfter[i][f] = true
+		}
+		fx := semantics[b.instrs[i].mn]
+		for _, f := range fx.defs {
+			delete(live, f)
+		}
+		for _, f := range fx.undef {
+			delete(live, f)
+		}
+		for _, f := range fx.reads {
+			live[f] = true
+		}
+	}
+	for i := range b.instrs {
+		in := &b.instrs[i]
+		// read-modify-write on memory needs the result for the flags; not needed by this file
+		for j, o := range in.ops {
+			if (o.kind == opMem || o.kind == opFrame) && j == len(in.ops)-1 && in.mn != "MOVQ" && in.mn != "CMPQ" && in.mn != "TESTQ" && in.mn != "MULQ" && in.mn != "DIVQ" {
+				return &asmErr{e.r.name, in.line, "read-modify-write memory destination is not supported: " + in.text}
+			}
+		}
+		if err := e.instr(in, liveAfter[i]); err != nil {
+			return err
+		}
+	}
+	return nil
+}
+
+func genAsm(repo string) (string, error) {
+	path := filepath.Join(repo, "dec_arith_amd64.s")
+	data, err := os.ReadFile(path)
+	if err != nil {
+		return "", err
+	}
+	routines, used, err := parseAsm(string(data))
+	if err != nil {
+		return "", err
+	}
+	if err := checkFlags(routines); err != nil {
+		return "", err
+	}
+	var sb strings.Builder
+	sb.WriteString("/- GENERATED by tools/gen from dec_arith_amd64.s of db47h/decimal. Do not edit.\n\n")
+	sb.WriteString("   One function per basic block, `blk_<routine>_<label> : St → St × Next Lbl`, as an SSA let-chain:\n")
+	sb.WriteString("   one `let` per instruction result and per live flag; registers are Nat < 2^64 (explicit `% W`),\n")
+	sb.WriteString("   CF is a Nat (0/1), ZF/SF/OF are Bool; loads and stores go through `Mem.rd`/`Mem.wr` in program\n")
+	sb.WriteString("   order with their byte address `(base + index*8 + disp) % W`; `x+off(FP)` is `frame` at `off`. -/\n")
+	sb.WriteString("import DecimalModel.AsmSem\n\n")
+	sb.WriteString("set_option linter.unusedVariables false\n\n")
+	sb.WriteString("namespace Decimal.Gen.Asm\n")
+	sb.WriteString("open Decimal.Gen (W)\nopen Decimal.Asm\n\n")
+
+	var mns []string
+	for m := range used {
+		mns = append(mns, m)
+	}
+	sort.Strings(mns)
+	fmt.Fprintf(&sb, "/-- mnemonics and directives met in the source -/\ndef mnemonics : List String := [")
+	for i, m := range mns {
+		if i > 0 {
+			sb.WriteString(", ")
+		}
+		fmt.Fprintf(&sb, "%q", m)
+	}
+	sb.WriteString("]\n\n")
+
+	sb.WriteString("/-- basic blocks of the whole file: `<routine>_<label>` -/\ninductive Lbl where\n")
+	for _, r := range routines {
+		for _, b := range r.blocks {
+			fmt.Fprintf(&sb, "  | %s_%s\n", r.name, b.name)
+		}
+	}
+	sb.WriteString("  deriving DecidableEq, Repr, Inhabited\n\n")
+
+	for _, r := range routines {
+		fmt.Fprintf(&sb, "/-! ### %s (line %d) -/\n\n", r.name, r.line)
+		for _, b := range r.blocks {
+			full := r.name + "_" + b.name
+			e := &emitter{r: r, b: b, sb: &strings.Builder{}, cur: map[string]string{}, ver: map[string]int{}, changed: map[string]bool{}, undef: map[string]bool{}, lit: map[string]bool{}}
+			for _, rg := range regOrder {
+				e.cur[rg] = "s." + rg
+			}
+			for _, f := range flagOrder {
+				e.cur[f] = "s." + f
+			}
+			e.cur["mem"], e.cur["frame"], e.cur["trap"] = "s.mem", "s.frame", "s.trap"
+			if err := e.block(full); err != nil {
+				return "", err
+			}
+			fmt.Fprintf(&sb, "def blk_%s (s : St) : St × Next Lbl :=\n", full)
+			sb.WriteString(e.sb.String())
+			// final state
+			var upd []string
+			for _, k := range append(append([]string{}, regOrder...), "cf", "zf", "sf", "of", "trap", "mem", "frame") {
+				if e.changed[k] {
+					if strings.HasPrefix(e.cur[k], "DEAD_") {
+						return "", &asmErr{r.name, r.line, "internal: dead flag live at block end"}
+					}
+					upd = append(upd, fmt.Sprintf("%s := %s", k, e.cur[k]))
+				}
+			}
+			st := "s"
+			if len(upd) > 0 {
+				st = "{ s with " + strings.Join(upd, ", ") + " }"
+			}
+			var nx string
+			switch b.term {
+			case "ret":
+				fmt.Fprintf(&sb, "  -- %d: RET\n", b.termIns.line)
+				nx = "Next.ret"
+			case "jmp":
+				fmt.Fprintf(&sb, "  -- %d: %s\n", b.termIns.line, b.termIns.text)
+				nx = "Next.goto Lbl." + b.target
+			case "fall":
+				nx = "Next.goto Lbl." + b.fall
+			case "cond":
+				fmt.Fprintf(&sb, "  -- %d: %s\n", b.termIns.line, b.termIns.text)
+				nx = fmt.Sprintf("if %s then Next.goto Lbl.%s else Next.goto Lbl.%s", condCodes[b.cc].expr(e.cur), b.target, b.fall)
+			}
+			fmt.Fprintf(&sb, "  (%s,\n   %s)\n\n", st, nx)
+		}
+	}
+
+	sb.WriteString("/-- the program: block function of every label -/\ndef program : Lbl → St → St × Next Lbl\n")
+	for _, r := range routines {
+		for _, b := range r.blocks {
+			fmt.Fprintf(&sb, "  | .%s_%s => blk_%s_%s\n", r.name, b.name, r.name, b.name)
+		}
+	}
+	sb.WriteString("\n/-- control-flow graph: successors of every block (a tail call `JMP f(SB)` goes to `f_entry`) -/\ndef succs : Lbl → List Lbl\n")
+	for _, r := range routines {
+		for _, b := range r.blocks {
+			var ss []string
+			for _, s := range b.succs() {
+				ss = append(ss, "."+s)
+			}
+			fmt.Fprintf(&sb, "  | .%s_%s => [%s]\n", r.name, b.name, strings.Join(ss, ", "))
+		}
+	}
+	sb.WriteString("\n/-- entry block of every TEXT routine -/\ndef routines : List (String × Lbl) := [")
+	for i, r := range routines {
+		if i > 0 {
+			sb.WriteString(", ")
+		}
+		fmt.Fprintf(&sb, "(%q, .%s_entry)", r.name, r.name)
+	}
+	sb.WriteString("]\n\nend Decimal.Gen.Asm\n")
+	return sb.String(), nil
+}
